@@ -62,6 +62,14 @@ structure Pod where
   req      : RL
   inCache  : Bool
   assigned : Bool
+  /-- UID of the latest pod object built under this cache key (namespace/name); a re-creation bumps it. -/
+  uid      : Nat := 0
+  /-- UID of the pod object the `PodInfo` holds (`isCachedPodUID`). -/
+  cuid     : Nat := 0
+  /-- a second `PodInfo` of the pod still sits in the default quota (a bind update filed the pod under its labelled
+      group before the migration tick); `ghostAssigned` = that `PodInfo`'s assigned flag. -/
+  ghost    : Bool := false
+  ghostAssigned : Bool := false
 
 structure State where
   dims   : Nat
@@ -222,7 +230,7 @@ def podAdd (s : State) (id : Nat) : State :=
     | none => s
     | some _ =>
       if p.inCache then s else
-      { s with pods := setPod s.pods id fun x => { x with quota := homeOf s p, inCache := true, assigned := false } }
+      { s with pods := setPod s.pods id fun x => { x with quota := homeOf s p, inCache := true, assigned := false, cuid := x.uid } }
 
 /-- the harness builds a pod object. -/
 def podDef (s : State) (id quota : Nat) (np : Bool) (req : RL) : State :=
@@ -250,9 +258,62 @@ def migrateOne (s : State) (p : Pod) : State :=
     { s2 with pods := setPod s2.pods p.id fun x => { x with quota := x.label } }
   | _, _ => s
 
+/-- the tick meets a pod of the default quota that its labelled group already holds (`ghost`): `MigratePod` takes it
+    out of the default quota (usage back if that `PodInfo` was assigned) and returns — "the target quota already
+    holds the pod", fix 5a63beb. -/
+def unghostOne (s : State) (p : Pod) : State :=
+  match s.dflt with
+  | none => s
+  | some dn =>
+    match findQ s.quotas dn with
+    | none => s
+    | some qd =>
+      let s1 : State := if p.ghostAssigned then
+          { s with quotas := applyDelta s (pathNames s dn) (some dn) (fun d => -(mreq qd p d))
+                               (fun d => if p.np then -(mreq qd p d) else 0) }
+        else s
+      { s1 with pods := setPod s1.pods p.id fun x => { x with ghost := false, ghostAssigned := false } }
+
+def unghost (s : State) : State := (s.pods.filter (·.ghost)).foldl unghostOne s
+
 /-- `migrateDefaultQuotaGroupsPod` (one tick, same tree): every pod of the default quota whose labelled group
     exists by now is migrated (Go ranges over a map; the moves commute, the model takes list order). -/
-def migrate (s : State) : State := (s.pods.filter (limbo s)).foldl migrateOne s
+def migrate (s : State) : State :=
+  let s' := unghost s
+  (s'.pods.filter (limbo s')).foldl migrateOne s'
+
+/-- the harness builds a NEW pod object under an old cache key (pod deleted and re-created under the same name):
+    new UID, possibly another request. -/
+def podRedef (s : State) (id : Nat) (np : Bool) (req : RL) : State :=
+  match findP s.pods id with
+  | none => s
+  | some p =>
+    if p.inCache then s else
+    { s with pods := setPod s.pods id fun x => { x with np := np, req := req, uid := x.uid + 1 } }
+
+/-- `Unreserve` called with the pod object of incarnation `uid`: `UnreservePod` returns when the cached pod has
+    another UID (`isCachedPodUID`, fix 03c2d97). -/
+def unreserveObj (s : State) (id uid : Nat) : State :=
+  match findP s.pods id with
+  | none => s
+  | some p => if p.cuid = uid then unreserve s id else s
+
+/-- `OnPodUpdate` with the bind update (spec.nodeName set).  For a pod waiting in the default quota for the tick
+    (`limbo`): the labelled group does not hold it, so it is filed there ("pod creation is before quota creation"),
+    marked assigned and its usage booked on the group's path; the `PodInfo` in the default quota stays (`ghost`).
+    For any other cached pod: assigned + usage booked unless it is assigned already (= `reserve`). -/
+def podBind (s : State) (id : Nat) : State :=
+  match findP s.pods id with
+  | none => s
+  | some p =>
+    if !limbo s p then reserve s id else
+    match findQ s.quotas p.label with
+    | none => s
+    | some qx =>
+      { s with
+        quotas := applyDelta s (pathNames s p.label) (some p.label) (mreq qx p) (fun d => if p.np then mreq qx p d else 0)
+        pods := setPod s.pods id fun x =>
+          { x with quota := x.label, assigned := true, ghost := true, ghostAssigned := x.assigned } }
 
 /-- `quotav1.IsZero` on the declared dimensions. -/
 def allZero (D : Nat) (a : Nat → Int) : Bool := (List.range D).all fun d => a d == 0
@@ -346,6 +407,9 @@ inductive Op where
   | podDelete (id : Nat)
   | setDefault (n : Nat)
   | migrate
+  | podRedef (id : Nat) (np : Bool) (req : RL)
+  | unreserveObj (id uid : Nat)
+  | podBind (id : Nat)
 
 /-- one event; the output is the PreFilter verdict of an `attempt`. -/
 def step (s : State) : Op → State × Option Verdict
@@ -362,6 +426,9 @@ def step (s : State) : Op → State × Option Verdict
   | .podDelete id => (podDelete s id, none)
   | .setDefault n => ({ s with dflt := some n }, none)
   | .migrate => (migrate s, none)
+  | .podRedef id np req => (podRedef s id np req, none)
+  | .unreserveObj id uid => (unreserveObj s id uid, none)
+  | .podBind id => (podBind s id, none)
 
 /-! ### critical sections (`hierarchyUpdateLock`)
 
